@@ -152,50 +152,37 @@ theorem sum_map_zero (us : List ULevel) : (us.map fun _ => (0 : Rat)).sum = 0 :=
   | nil => rfl
   | cons _ _ ih => simp
 
-/-- **A ladder that ends with a covering hot utility closes the allocation**: whatever utilities come
-    before it, the duties add up to the target within `tol` (exactly, when the covering utility
-    is reached with more than `tol` left). -/
-theorem assignLoop_closes_hot (tol : Rat) (htol : 0 ≤ tol) (T H : List Rat) (uc : ULevel) (limit : Rat)
-    (hcov : ∀ t ∈ T, t ≤ uc.tt ∧ -tol ≤ uc.ts - t)
-    (hlen : T.length = H.length) (hmono : H.Pairwise (· ≥ ·)) (hhead : H.head? = some limit)
-    (hlast : ∃ z, H.getLast? = some z ∧ z < limit) :
+/-- the loop closes as soon as its last utility takes whatever is left (either side) -/
+theorem assignLoop_closes_of_cover (tol : Rat) (htol : 0 ≤ tol) (T H : List Rat) (isHot : Bool) (uc : ULevel) (limit : Rat)
+    (hM : ∀ h ∈ H, h ≤ limit)
+    (hstep : ∀ qA, tol < limit - qA → maximiseUtilityDuty tol T H uc isHot qA = limit - qA) :
     ∀ (pre : List ULevel) (qA : Rat), qA ≤ limit →
-      limit - tol ≤ qA + (assignLoop tol T H true limit qA (pre ++ [uc])).sum ∧
-      qA + (assignLoop tol T H true limit qA (pre ++ [uc])).sum ≤ limit := by
-  have hM : ∀ h ∈ H, h ≤ limit := by
-    intro h hh
-    cases H with
-    | nil => simp at hh
-    | cons a H' =>
-      simp only [List.head?_cons, Option.some.injEq] at hhead
-      subst hhead
-      rcases List.mem_cons.mp hh with rfl | hh
-      · exact le_refl _
-      · exact (List.pairwise_cons.mp hmono).1 h hh
+      limit - tol ≤ qA + (assignLoop tol T H isHot limit qA (pre ++ [uc])).sum ∧
+      qA + (assignLoop tol T H isHot limit qA (pre ++ [uc])).sum ≤ limit := by
   intro pre
   induction pre with
   | nil =>
     intro qA hqA
     simp only [List.nil_append, assignLoop, List.map_nil]
     by_cases hq : tol < limit - qA
-    · rw [maximise_covering_hot tol htol T H uc qA limit hcov hlen hmono hhead hlast hq]
+    · rw [hstep qA hq]
       simp only [hq, if_true]
       split_ifs <;> simp only [List.sum_cons, List.sum_nil] <;> constructor <;> linarith
-    · have hle := maximise_le tol T H uc true qA limit hM hqA
-      have hnot : ¬ tol < maximiseUtilityDuty tol T H uc true qA := by intro h; linarith
+    · have hle := maximise_le tol T H uc isHot qA limit hM hqA
+      have hnot : ¬ tol < maximiseUtilityDuty tol T H uc isHot qA := by intro h; linarith
       simp only [hnot, if_false]
       split_ifs <;> simp only [List.sum_cons, List.sum_nil] <;> constructor <;> linarith
   | cons u pre ih =>
     intro qA hqA
     simp only [List.cons_append, assignLoop]
-    have hle := maximise_le tol T H u true qA limit hM hqA
-    by_cases hq : tol < maximiseUtilityDuty tol T H u true qA
+    have hle := maximise_le tol T H u isHot qA limit hM hqA
+    by_cases hq : tol < maximiseUtilityDuty tol T H u isHot qA
     · simp only [hq, if_true]
-      have hqA' : qA + maximiseUtilityDuty tol T H u true qA ≤ limit := by linarith
-      by_cases hstop : rabs (limit - (qA + maximiseUtilityDuty tol T H u true qA)) < tol
+      have hqA' : qA + maximiseUtilityDuty tol T H u isHot qA ≤ limit := by linarith
+      by_cases hstop : rabs (limit - (qA + maximiseUtilityDuty tol T H u isHot qA)) < tol
       · rw [if_pos hstop]
         simp only [List.sum_cons, sum_map_zero]
-        have : rabs (limit - (qA + maximiseUtilityDuty tol T H u true qA)) = limit - (qA + maximiseUtilityDuty tol T H u true qA) := by
+        have : rabs (limit - (qA + maximiseUtilityDuty tol T H u isHot qA)) = limit - (qA + maximiseUtilityDuty tol T H u isHot qA) := by
           unfold rabs; rw [if_neg (by linarith)]
         rw [this] at hstop
         constructor <;> linarith
@@ -214,5 +201,176 @@ theorem assignLoop_closes_hot (tol : Rat) (htol : 0 ≤ tol) (T H : List Rat) (u
         obtain ⟨a, b⟩ := ih qA hqA
         simp only [List.sum_cons]
         constructor <;> linarith
+
+theorem le_head_of_desc (H : List Rat) (limit : Rat) (hmono : H.Pairwise (· ≥ ·)) (hhead : H.head? = some limit) :
+    ∀ h ∈ H, h ≤ limit := by
+  intro h hh
+  cases H with
+  | nil => simp at hh
+  | cons a H' =>
+    simp only [List.head?_cons, Option.some.injEq] at hhead
+    subst hhead
+    rcases List.mem_cons.mp hh with rfl | hh
+    · exact le_refl _
+    · exact (List.pairwise_cons.mp hmono).1 h hh
+
+theorem le_last_of_asc : ∀ (l : List Rat) (x : Rat), l.Pairwise (· ≤ ·) → l.getLast? = some x → ∀ y ∈ l, y ≤ x := by
+  intro l
+  induction l with
+  | nil => intro x _ h; simp at h
+  | cons a l ih =>
+    intro x hp hx y hy
+    cases l with
+    | nil =>
+      simp only [List.getLast?_singleton, Option.some.injEq] at hx
+      simp only [List.mem_singleton] at hy
+      rw [hy, hx]
+    | cons b l' =>
+      have hx' : (b :: l').getLast? = some x := by simpa [List.getLast?_cons_cons] using hx
+      rcases List.mem_cons.mp hy with rfl | hy
+      · exact (List.pairwise_cons.mp hp).1 x (List.mem_of_getLast? hx')
+      · exact ih x (List.pairwise_cons.mp hp).2 hx' y hy
+
+/-- **A ladder that ends with a covering hot utility closes the allocation**: whatever utilities come
+    before it, the duties add up to the target within `tol`. -/
+theorem assignLoop_closes_hot (tol : Rat) (htol : 0 ≤ tol) (T H : List Rat) (uc : ULevel) (limit : Rat)
+    (hcov : ∀ t ∈ T, t ≤ uc.tt ∧ -tol ≤ uc.ts - t)
+    (hlen : T.length = H.length) (hmono : H.Pairwise (· ≥ ·)) (hhead : H.head? = some limit)
+    (hlast : ∃ z, H.getLast? = some z ∧ z < limit) :
+    ∀ (pre : List ULevel) (qA : Rat), qA ≤ limit →
+      limit - tol ≤ qA + (assignLoop tol T H true limit qA (pre ++ [uc])).sum ∧
+      qA + (assignLoop tol T H true limit qA (pre ++ [uc])).sum ≤ limit :=
+  assignLoop_closes_of_cover tol htol T H true uc limit (le_head_of_desc H limit hmono hhead)
+    (fun qA hq => maximise_covering_hot tol htol T H uc qA limit hcov hlen hmono hhead hlast hq)
+
+/-! ### the cooling side (mirror image) -/
+
+/-- in a non-decreasing column that ends at `limit` and starts below it some interval ends at
+    `limit` and is not flat -/
+theorem exists_bottom_cell : ∀ (T H : List Rat) (limit : Rat), T.length = H.length → H.Pairwise (· ≤ ·) →
+    H.getLast? = some limit → (∃ z, H.head? = some z ∧ z < limit) →
+    ∃ tU hU tL, ((tU, hU), (tL, limit)) ∈ candidates.cells' (T.zip H) ∧ hU ≠ limit
+  | _, [], _, _, _, hl, _ => by simp at hl
+  | T, [a], limit, _, _, hl, ⟨z, hz, hlt⟩ => by
+    simp only [List.getLast?_singleton, Option.some.injEq] at hl
+    simp only [List.head?_cons, Option.some.injEq] at hz
+    subst hl; subst hz; exact absurd hlt (lt_irrefl _)
+  | [], _ :: _ :: _, _, hlen, _, _, _ => by simp at hlen
+  | [_], _ :: _ :: _, _, hlen, _, _, _ => by simp at hlen
+  | t1 :: t2 :: T, a :: b :: H, limit, hlen, hm, hl, ⟨z, hz, hlt⟩ => by
+    simp only [List.head?_cons, Option.some.injEq] at hz
+    subst hz
+    have hl' : (b :: H).getLast? = some limit := by simpa [List.getLast?_cons_cons] using hl
+    have hm' : (b :: H).Pairwise (· ≤ ·) := (List.pairwise_cons.mp hm).2
+    have hble : b ≤ limit := by
+      cases H with
+      | nil => simp only [List.getLast?_singleton, Option.some.injEq] at hl'; rw [hl']
+      | cons c H' =>
+        have hmem : limit ∈ c :: H' := by
+          have := List.mem_of_getLast? (by simpa [List.getLast?_cons_cons] using hl' : (c :: H').getLast? = some limit)
+          exact this
+        exact (List.pairwise_cons.mp hm').1 limit hmem
+    by_cases hb : b = limit
+    · subst hb
+      exact ⟨t1, a, t2, by simp [List.zip_cons_cons, candidates.cells'], ne_of_lt hlt⟩
+    · have hlen' : (t2 :: T).length = (b :: H).length := by simpa using hlen
+      obtain ⟨tU, hU, tL, hmem, hne⟩ := exists_bottom_cell (t2 :: T) (b :: H) limit hlen' hm' hl'
+        ⟨b, rfl, lt_of_le_of_ne hble hb⟩
+      refine ⟨tU, hU, tL, ?_, hne⟩
+      simp only [List.zip_cons_cons, candidates.cells', List.mem_cons]
+      right
+      simpa [List.zip_cons_cons] using hmem
+
+/-- **A covering cold utility takes all that is left** (mirror image of `maximise_covering_hot`). -/
+theorem maximise_covering_cold (tol : Rat) (htol : 0 ≤ tol) (T H : List Rat) (u : ULevel) (qA limit : Rat)
+    (hcov : ∀ t ∈ T, u.tt ≤ t ∧ -tol ≤ t - u.ts)
+    (hlen : T.length = H.length) (hmono : H.Pairwise (· ≤ ·)) (hlastv : H.getLast? = some limit)
+    (hhead : ∃ z, H.head? = some z ∧ z < limit) (hq : tol < limit - qA) :
+    maximiseUtilityDuty tol T H u false qA = limit - qA := by
+  have hM : ∀ h ∈ H, h ≤ limit := by
+    intro h hh
+    -- every element is at most the last one of a non-decreasing list
+    have : ∀ (l : List Rat) (x : Rat), l.Pairwise (· ≤ ·) → l.getLast? = some x → ∀ y ∈ l, y ≤ x := by
+      intro l
+      induction l with
+      | nil => intro x _ h; simp at h
+      | cons a l ih =>
+        intro x hp hx y hy
+        cases l with
+        | nil =>
+          simp only [List.getLast?_singleton, Option.some.injEq] at hx
+          simp only [List.mem_singleton] at hy
+          rw [hy, hx]
+        | cons b l' =>
+          have hx' : (b :: l').getLast? = some x := by simpa [List.getLast?_cons_cons] using hx
+          rcases List.mem_cons.mp hy with rfl | hy
+          · exact (List.pairwise_cons.mp hp).1 x (List.mem_of_getLast? hx')
+          · exact ih x (List.pairwise_cons.mp hp).2 hx' y hy
+    exact this H limit hmono hlastv h hh
+  obtain ⟨tU, hU, tL, hcell, hne⟩ := exists_bottom_cell T H limit hlen hmono hlastv hhead
+  have hmemU := (cells_mem _ _ _ hcell).1
+  have hmemL := (cells_mem _ _ _ hcell).2
+  have htU := hcov tU (List.of_mem_zip hmemU).1
+  have htL := hcov tL (List.of_mem_zip hmemL).1
+  have hc0 : ({ qPot := limit - qA, qCur := hU - qA, dtTar := tU - u.tt } : Cand) ∈ candidates tol T H u false qA := by
+    unfold candidates
+    apply List.mem_filterMap.mpr
+    refine ⟨((tU, hU), (tL, limit)), hcell, ?_⟩
+    simp only [Bool.false_eq_true, if_false]
+    rw [if_pos ⟨fun h => hne h.symm, htL.2, hq⟩]
+  have hall : ∀ c ∈ candidates tol T H u false qA, 0 ≤ c.dtTar ∧ c.qPot ≤ limit - qA := by
+    intro c hc
+    have hb := (candidates_qPot tol T H u false qA limit hM c hc).2
+    refine ⟨?_, hb⟩
+    unfold candidates at hc
+    obtain ⟨⟨⟨tU', hU'⟩, ⟨tL', hL'⟩⟩, hmem', hsome⟩ := List.mem_filterMap.mp hc
+    have hmu := (cells_mem _ _ _ hmem').1
+    have := (hcov tU' (List.of_mem_zip hmu).1).1
+    simp only [Bool.false_eq_true, if_false] at hsome
+    split_ifs at hsome with hcond
+    cases hsome
+    simp only
+    linarith
+  have hlen2 : ¬ T.length < 2 := by
+    intro hlt
+    have : (T.zip H).length < 2 := by rw [List.length_zip]; omega
+    cases hz : T.zip H with
+    | nil => rw [hz] at hcell; simp [candidates.cells'] at hcell
+    | cons x l =>
+      cases l with
+      | nil => rw [hz] at hcell; simp [candidates.cells'] at hcell
+      | cons y l => rw [hz] at this; simp only [List.length_cons] at this; omega
+  unfold maximiseUtilityDuty
+  rw [if_neg hlen2]
+  cases hcs : candidates tol T H u false qA with
+  | nil => rw [hcs] at hc0; simp at hc0
+  | cons c cs =>
+    rw [hcs] at hc0 hall
+    simp only
+    have hdt : ¬ cs.foldl (fun m x => max m x.dtTar) c.dtTar < 0 := by
+      have h1 := foldl_max_ge_init (·.dtTar) cs c.dtTar
+      have h2 := (hall c (by simp)).1
+      intro h; linarith
+    rw [if_neg hdt]
+    rw [foldl_if_none (fun x => tol < -x.dtTar) _ (c :: cs) (fun x hx => by have := (hall x hx).1; intro h; linarith)]
+    simp only
+    apply le_antisymm
+    · exact foldl_max_le (·.qPot) (limit - qA) cs c.qPot (hall c (by simp)).2 (fun x hx => (hall x (by simp [hx])).2)
+    · rcases List.mem_cons.mp hc0 with h | h
+      · have : c.qPot = limit - qA := by rw [← h]
+        rw [← this]; exact foldl_max_ge_init (·.qPot) cs c.qPot
+      · exact foldl_max_ge_mem (·.qPot) cs c.qPot _ h
+
+
+/-- **A ladder that ends with a covering cold utility closes the allocation.** -/
+theorem assignLoop_closes_cold (tol : Rat) (htol : 0 ≤ tol) (T H : List Rat) (uc : ULevel) (limit : Rat)
+    (hcov : ∀ t ∈ T, uc.tt ≤ t ∧ -tol ≤ t - uc.ts)
+    (hlen : T.length = H.length) (hmono : H.Pairwise (· ≤ ·)) (hlastv : H.getLast? = some limit)
+    (hhead : ∃ z, H.head? = some z ∧ z < limit) :
+    ∀ (pre : List ULevel) (qA : Rat), qA ≤ limit →
+      limit - tol ≤ qA + (assignLoop tol T H false limit qA (pre ++ [uc])).sum ∧
+      qA + (assignLoop tol T H false limit qA (pre ++ [uc])).sum ≤ limit :=
+  assignLoop_closes_of_cover tol htol T H false uc limit (le_last_of_asc H limit hmono hlastv)
+    (fun qA hq => maximise_covering_cold tol htol T H uc qA limit hcov hlen hmono hlastv hhead hq)
 
 end OP
